@@ -150,6 +150,9 @@ func (r *Run) strLit(s string) string {
 	n := sym(fmt.Sprintf("str!%d!%s", len(r.strLits), clip(s, 24)))
 	r.facts.DeclareFun(n, nil, "Str")
 	r.facts.Assert(fmt.Sprintf("(= (slen %s) %d)", n, len(s)))
+	if len(s) == 1 {
+		r.facts.Assert(fmt.Sprintf("(= %s (char_str %d))", n, s[0]))
+	}
 	for o, ot := range r.strLits {
 		if o != s {
 			r.facts.Assert("(not (= " + n + " " + ot + "))")
@@ -204,7 +207,13 @@ func (r *Run) box(t types.Type, v Val) Val {
 		pv = r.ptrTerm(v)
 	}
 	h := sApp(bf, pv)
-	if !r.once["boxax|"+h] {
+	if r.inQuant > 0 && strings.Contains(h, "!q") {
+		// the boxed term mentions a bound variable: state the boxing axiom once, quantified
+		if !r.once["boxaxq|"+tk] {
+			r.once["boxaxq|"+tk] = true
+			r.facts.Assert(fmt.Sprintf("(forall ((bx %s)) (! (and (not (= (%s bx) 0)) (= (itag (%s bx)) %d) (= (%s (%s bx)) bx)) :pattern ((%s bx))))", srt, bf, bf, tag, uf, bf, bf))
+		}
+	} else if !r.once["boxax|"+h] {
 		r.once["boxax|"+h] = true
 		r.facts.Assert(fmt.Sprintf("(and (not (= %s 0)) (= (itag %s) %d) (= (%s %s) %s))", h, h, tag, uf, h, pv))
 	}
@@ -248,6 +257,7 @@ type Frame struct {
 	parent   *Frame
 	panics   []*State
 	loopFrames map[*ssa.BasicBlock][]loopFrameRec
+	dbg        map[string]Val // source variable name -> value of its latest reference (DebugRef)
 	curRet     string // return site whose deferred calls are being run
 	scope      *ssa.BasicBlock // loop header whose phi names take precedence in contract expressions
 	innerLoop  map[*ssa.BasicBlock]*ssa.BasicBlock
@@ -272,7 +282,7 @@ func (r *Run) newFrame(fn *ssa.Function, parent *Frame) *Frame {
 	if parent != nil {
 		inst = fmt.Sprintf("%s#%d", name, r.instCount[name])
 	}
-	fr := &Frame{r: r, fn: fn, fname: name, inst: inst, vals: map[ssa.Value]Val{}, names: map[string]Val{}, parent: parent,
+	fr := &Frame{r: r, fn: fn, fname: name, inst: inst, vals: map[ssa.Value]Val{}, names: map[string]Val{}, dbg: map[string]Val{}, parent: parent,
 		anchors: map[ssa.Instruction][]string{}, loopOrd: map[*ssa.BasicBlock]int{}, rangeOrd: map[*ssa.Range]int{}}
 	if parent != nil {
 		fr.depth = parent.depth + 1
@@ -310,6 +320,10 @@ func (r *Run) calleeName(c *ssa.CallCommon) string {
 		}
 	case *ssa.Call:
 		return "result:" + r.calleeName(&v.Call)
+	case *ssa.Phi:
+		if v.Comment != "" {
+			return "var:" + v.Comment
+		}
 	case *ssa.Parameter:
 		return "param:" + v.Name()
 	case *ssa.FreeVar:
@@ -927,7 +941,7 @@ func (fr *Frame) checkInvariant(h, from *ssa.BasicBlock, es *State, kind string)
 	savedScope := fr.scope
 	fr.scope = h
 	for i, c := range invs {
-		fr.requireExpr(es, kind, fr.fname, fmt.Sprintf("loop#%d.%d", fr.loopOrd[h], i+1), c.Expr, nil, c.Tags, h.Instrs[0].Pos(), c.Text)
+		fr.requireExpr(es, kind, fr.fname, fmt.Sprintf("loop#%d.%d%s@%s", fr.loopOrd[h], i+1, tagSuffix(c.Tags), from.Comment+fmt.Sprint(from.Index)), c.Expr, nil, c.Tags, h.Instrs[0].Pos(), c.Text)
 	}
 	fr.scope = savedScope
 	for _, phi := range phisOf(h) {
@@ -955,7 +969,7 @@ func (fr *Frame) enterLoop(h *ssa.BasicBlock, st *State) *State {
 	}
 	fr.loopEntry[h] = st.clone()
 	for i, c := range invs {
-		fr.requireExpr(st, "inv-init", fr.fname, fmt.Sprintf("loop#%d.%d", ord, i+1), c.Expr, nil, c.Tags, h.Instrs[0].Pos(), c.Text)
+		fr.requireExpr(st, "inv-init", fr.fname, fmt.Sprintf("loop#%d.%d%s", ord, i+1, tagSuffix(c.Tags)), c.Expr, nil, c.Tags, h.Instrs[0].Pos(), c.Text)
 	}
 	body := naturalLoop(h)
 	// --- dry run to discover the modified set
@@ -1076,6 +1090,13 @@ func (fr *Frame) enterLoop(h *ssa.BasicBlock, st *State) *State {
 		r.assume(hs, v.S)
 	}
 	return hs
+}
+
+func tagSuffix(tags []string) string {
+	if len(tags) == 0 {
+		return ""
+	}
+	return "[" + tags[0] + "]"
 }
 
 func copyBoolMap(m map[string]bool) map[string]bool {
